@@ -637,3 +637,202 @@ for _tag, _attrs in SET_ATTRS_SITES.items():
         modifies=[f"{_tclass(_tag)}.{_a}" for _a in _attrs],
         runtime=Runtime(_sa_gen(_tag), _sa_build, call=(lambda t, at: lambda fn, a: fn(a["self"], t, set(at)))(_tag, _attrs)),
     )
+
+
+# =========================================================================================================
+# Table fields after compile: the outline compiler's setupTable_* functions read the info object through
+# getAttrWithFallback (at these call sites: the trusted summary symbol of contracts/lib.py, whose meaning per
+# attribute is what the `getAttrWithFallback#<attr>` variants above prove) and store
+#   identity | otRound(value) | intListToNum(value, start, length) | int(value) | float(value)
+# into the table object.  Field ranges / struct packing are fontTools' (out of scope).
+from . import rtlib  # noqa: E402
+
+# types of the summary symbols these functions read (setdefault: another property's file may have typed them)
+for _a, _t in ATTR_TYPES.items():
+    if _a in STATIC and STATIC[_a][1] is None:
+        _t = Opt(_t)  # documented fallback None: the with-fallback value is optional
+    if _a in ("openTypeNameWWSFamilyName", "openTypeNameWWSSubfamilyName"):
+        _t = Opt(_t)
+    if _t != REAL:
+        lib.INFO_ATTR_TYPES.setdefault(_a, _t)
+# the UFO3 specification types versionMajor / versionMinor as integers
+lib.INFO_ATTR_TYPES.setdefault("versionMajor", INT)
+lib.INFO_ATTR_TYPES.setdefault("versionMinor", INT)
+lib.LIB_TYPES.setdefault("public.openTypePostUnderlinePosition", REAL)
+
+_INFO = "self.ufo.info"
+_ULP_KEY = "public.openTypePostUnderlinePosition"
+
+
+def gi(attr):
+    """clause text: the with-fallback value of an attribute of the compiler's font"""
+    return f"getAttrWithFallback({_INFO}, '{attr}')"
+
+
+def _table_info_cases(extra_attrs=()):
+    """run-time cases: 2-glyph UFO with a random subset of (valid) info attributes, both UFO libraries, both flavours"""
+
+    def gen(rng, n):
+        from vcheck.hooks.c16 import rand_info
+
+        out = []
+        for k in range(n):
+            d = rand_info(rng, latin1_only=True, valid_for_compile=True)
+            desc = {"glyphs": {"a": {"width": 500, "unicodes": [97], "box": [10, 0, 300, 400]}, "space": {"width": 250, "unicodes": [32]}}, "info": d,
+                    "ufolib": "ufoLib2" if k % 2 == 0 else "defcon", "flavor": "otf" if (k // 2) % 2 else "ttf", "lib": {}}
+            if k % 3 == 0:
+                desc["lib"][_ULP_KEY] = rng.choice([0, -120, -33.5, 17])
+            if k % 7 == 3:
+                desc["no_tables"] = True
+            out.append(desc)
+        return out
+
+    return gen
+
+
+def _table_build(upto=()):
+    def build(d):
+        comp = rtlib.outline_compiler(d, d["flavor"], upto=upto)
+        if d.get("no_tables"):
+            comp.tables = frozenset()
+        return {"self": comp}
+
+    return build
+
+
+_POST = "self.otf['post']"
+contract(
+    "ufo2ft.outlineCompiler:BaseOutlineCompiler.setupTable_post",
+    name="c16",
+    props=P,
+    params={"self": Ref("OutlineCompiler")},
+    ensures={
+        "italicAngle": f"implies('post' in self.tables, {_POST}.italicAngle == {gi('italicAngle')})",
+        # the lib key (an underline position measured to the top of the stroke, as `post` wants it) overrides the info value
+        "underlinePosition": f"implies('post' in self.tables, {_POST}.underlinePosition == otRound(self.ufo.lib['{_ULP_KEY}'] if '{_ULP_KEY}' in self.ufo.lib else {gi('postscriptUnderlinePosition')}))",
+        "underlineThickness": f"implies('post' in self.tables, {_POST}.underlineThickness == otRound({gi('postscriptUnderlineThickness')}))",
+        "isFixedPitch": f"implies('post' in self.tables, {_POST}.isFixedPitch == (1 if {gi('postscriptIsFixedPitch')} else 0))",
+        "constants": f"implies('post' in self.tables, {_POST}.formatType == 3.0 and {_POST}.minMemType42 == 0 and {_POST}.maxMemType42 == 0 and {_POST}.minMemType1 == 0 and {_POST}.maxMemType1 == 0)",
+        "not-requested": "implies('post' not in self.tables, self.otf.get('post') == old(self.otf.get('post')))",
+    },
+    canaries={"fixed-pitch-always": f"'post' in self.tables and {_POST}.isFixedPitch == 1"},
+    globals=G,
+    runtime=Runtime(_table_info_cases(), _table_build(), call=lambda fn, a: fn(a["self"])),
+)
+
+
+# ---- intListToNum at call sites with several signatures in one caller ------------------------------------------
+# `calls=` maps a callee to ONE variant; setupTable_OS2 uses five signatures.  The bare key therefore carries the
+# CONJUNCTION of the six proved variants, built mechanically from their `ensures` (props=[]: nothing new is claimed
+# or assumed here — each conjunct is exactly the postcondition that the variant `#<start>+<length>` discharges with
+# start / length fixed to those constants; a call with any other signature fails `pre@callsite`).
+_ilt_ens = {}
+for _s, _l in SIGNATURES:
+    for _k, _e in CONTRACTS[f"{MOD}:intListToNum#{_s}+{_l}"].ensures.items():
+        _ilt_ens[f"{_s}+{_l}:{_k}"] = f"implies(start == {_s} and length == {_l}, {_e})"
+contract(
+    f"{MOD}:intListToNum",
+    props=[],
+    params={"intList": List(INT), "start": INT, "length": INT},
+    returns=INT,
+    requires=[" or ".join(f"(start == {_s} and length == {_l})" for _s, _l in SIGNATURES)],
+    ensures=_ilt_ens,
+    notes="conjunction of the proved variants intListToNum#<start>+<length> (same clause texts)",
+)
+
+
+def bits_of(expr, start, length):
+    """clause text: intListToNum(expr, start, length) as the sum over the distinct bit numbers present in expr"""
+    return "(" + " + ".join(f"ite({i} in {expr}, {2 ** (i - start)}, 0)" for i in range(start, start + length)) + ")"
+
+
+# ---- OS/2 -------------------------------------------------------------------------------------------------------
+def _havoc_fields(*fields):
+    def model(ex, st, self, args, kwargs, node):
+        for f in fields:
+            ex.write_field(st, self, f, Val(INT, z3.FreshConst(z3.IntSort(), "recalc_" + f)), node)
+        return Val.const(None)
+
+    return model
+
+
+_OS2C = CLASSES[lib.table_class("OS/2")]
+# fontTools library methods of the OS/2 table object (trusted): each recomputes the named fields from OTHER tables
+_OS2C.methods.setdefault("recalcAvgCharWidth", _havoc_fields("xAvgCharWidth"))
+_OS2C.methods.setdefault("recalcUnicodeRanges", _havoc_fields("ulUnicodeRange1", "ulUnicodeRange2", "ulUnicodeRange3", "ulUnicodeRange4"))
+_OS2C.methods.setdefault("recalcCodePageRanges", _havoc_fields("ulCodePageRange1", "ulCodePageRange2"))
+if "Panose" not in CLASSES:
+    cls("Panose", dynamic=True, notes="fontTools Panose(): attribute bag (assumed)")
+
+_OS2 = "self.otf['OS/2']"
+_UPM = gi("unitsPerEm")
+_ANG = gi("italicAngle")
+_SM = gi("styleMapStyleName")
+_XH = gi("xHeight")
+_PANOSE_FIELDS = ["bFamilyType", "bSerifStyle", "bWeight", "bProportion", "bContrast", "bStrokeVariation", "bArmStyle", "bLetterForm", "bMidline", "bXHeight"]
+
+
+def _or_default(attr, dflt):
+    return f"otRound({gi(attr)} if {gi(attr)} is not None else {dflt})"
+
+
+def _adj(off):
+    """AFDKO: X offset of a sub/superscript from its Y offset and the italic angle"""
+    return f"({off} * math.tan(math.radians(-{_ANG})) if {_ANG} != 0 else 0)"
+
+
+_style_bit = {6: f"{_SM} == 'regular'", 5: f"({_SM} == 'bold' or {_SM} == 'bold italic')", 0: f"({_SM} == 'italic' or {_SM} == 'bold italic')"}
+_FS_SELECTION = "(" + " + ".join(
+    f"ite({i} in {gi('openTypeOS2Selection')}" + (f" or {_style_bit[i]}" if i in _style_bit else "") + f", {2 ** i}, 0)" for i in range(16)
+) + ")"
+
+_OS2_FIELDS = {
+    "version": f"{_OS2}.version == 4",
+    "usWeightClass": f"{_OS2}.usWeightClass == {gi('openTypeOS2WeightClass')}",
+    "usWidthClass": f"{_OS2}.usWidthClass == {gi('openTypeOS2WidthClass')}",
+    "fsType": f"{_OS2}.fsType == {bits_of(gi('openTypeOS2Type'), 0, 16)}",
+    # subscript / superscript / strikeout: the explicit value rounded, else the AFDKO defaults derived from unitsPerEm,
+    # italicAngle and xHeight
+    "ySubscriptXSize": f"{_OS2}.ySubscriptXSize == {_or_default('openTypeOS2SubscriptXSize', f'{_UPM} * 0.65')}",
+    "ySubscriptYSize": f"{_OS2}.ySubscriptYSize == {_or_default('openTypeOS2SubscriptYSize', f'{_UPM} * 0.6')}",
+    "ySubscriptYOffset": f"{_OS2}.ySubscriptYOffset == {_or_default('openTypeOS2SubscriptYOffset', f'{_UPM} * 0.075')}",
+    "ySubscriptXOffset": f"{_OS2}.ySubscriptXOffset == {_or_default('openTypeOS2SubscriptXOffset', _adj(f'-{_OS2}.ySubscriptYOffset'))}",
+    "ySuperscriptXSize": f"{_OS2}.ySuperscriptXSize == {_or_default('openTypeOS2SuperscriptXSize', f'{_OS2}.ySubscriptXSize')}",
+    "ySuperscriptYSize": f"{_OS2}.ySuperscriptYSize == {_or_default('openTypeOS2SuperscriptYSize', f'{_OS2}.ySubscriptYSize')}",
+    "ySuperscriptYOffset": f"{_OS2}.ySuperscriptYOffset == {_or_default('openTypeOS2SuperscriptYOffset', f'{_UPM} * 0.35')}",
+    "ySuperscriptXOffset": f"{_OS2}.ySuperscriptXOffset == {_or_default('openTypeOS2SuperscriptXOffset', _adj(f'{_OS2}.ySuperscriptYOffset'))}",
+    "yStrikeoutSize": f"{_OS2}.yStrikeoutSize == {_or_default('openTypeOS2StrikeoutSize', gi('postscriptUnderlineThickness'))}",
+    "yStrikeoutPosition": f"{_OS2}.yStrikeoutPosition == " + _or_default("openTypeOS2StrikeoutPosition", f"({_XH} * 0.6 if {_XH} != 0 else {_UPM} * 0.22)"),
+    "sFamilyClass": f"{_OS2}.sFamilyClass == {gi('openTypeOS2FamilyClass')}[0] * 256 + {gi('openTypeOS2FamilyClass')}[1]",
+    **{f"panose.{f}": f"{_OS2}.panose.{f} == {gi('openTypeOS2Panose')}[{k}]" for k, f in enumerate(_PANOSE_FIELDS)},
+    **{f"ulUnicodeRange{k + 1}": f"implies({gi('openTypeOS2UnicodeRanges')} is not None, {_OS2}.ulUnicodeRange{k + 1} == {bits_of(gi('openTypeOS2UnicodeRanges'), 32 * k, 32)})" for k in range(4)},
+    **{f"ulCodePageRange{k + 1}": f"implies({gi('openTypeOS2CodePageRanges')} is not None, {_OS2}.ulCodePageRange{k + 1} == {bits_of(gi('openTypeOS2CodePageRanges'), 32 * k, 32)})" for k in range(2)},
+    "achVendID": f"{_OS2}.achVendID == {gi('openTypeOS2VendorID')}.ljust(4)",
+    "sxHeight": f"{_OS2}.sxHeight == otRound({gi('xHeight')})",
+    "sCapHeight": f"{_OS2}.sCapHeight == otRound({gi('capHeight')})",
+    "sTypoAscender": f"{_OS2}.sTypoAscender == otRound({gi('openTypeOS2TypoAscender')})",
+    "sTypoDescender": f"{_OS2}.sTypoDescender == otRound({gi('openTypeOS2TypoDescender')})",
+    "sTypoLineGap": f"{_OS2}.sTypoLineGap == otRound({gi('openTypeOS2TypoLineGap')})",
+    "usWinAscent": f"{_OS2}.usWinAscent == otRound({gi('openTypeOS2WinAscent')})",
+    "usWinDescent": f"{_OS2}.usWinDescent == otRound({gi('openTypeOS2WinDescent')})",
+    # the explicit selection bits plus the style-map bits: regular -> 6, bold -> 5, italic -> 0, bold italic -> 0 and 5
+    "fsSelection": f"{_OS2}.fsSelection == {_FS_SELECTION}",
+    "constants": f"{_OS2}.usBreakChar == 32 and {_OS2}.usDefaultChar == 0 and {_OS2}.usMaxContex == 0",
+}
+
+contract(
+    "ufo2ft.outlineCompiler:BaseOutlineCompiler.setupTable_OS2",
+    name="c16",
+    props=P,
+    params={"self": Ref("OutlineCompiler")},
+    # hypothesis of the property (spec-valid info): UFO3 fixes the lengths of these two lists
+    requires=[f"len({gi('openTypeOS2FamilyClass')}) == 2", f"len({gi('openTypeOS2Panose')}) == 10"],
+    ensures={
+        **{k: f"implies('OS/2' in self.tables, {v})" for k, v in _OS2_FIELDS.items()},
+        "not-requested": "implies('OS/2' not in self.tables, self.otf.get('OS/2') == old(self.otf.get('OS/2')))",
+    },
+    canaries={"weight-400": f"'OS/2' in self.tables and {_OS2}.usWeightClass == 400"},
+    locals={"selection": List(INT), "unicodes": List(INT)},
+    globals=G,
+    runtime=Runtime(_table_info_cases(), _table_build(), call=lambda fn, a: fn(a["self"])),
+)
